@@ -2,3 +2,5 @@
 import TempestVerif.Sc
 import TempestVerif.Props.C16
 import TempestVerif.Props.C07
+import TempestVerif.Props.C04
+import TempestVerif.Props.C12
